@@ -1006,6 +1006,18 @@ def gen_c18_schedule(seed, index, tier):
         return {"kind": "c18", "seed": seed, "index": index, "tier": tier, "variant": variant, "profile": profile,
                 "ops": ops}
 
+    # one schedule in three opens with a client that connects without any service while the device is closed and asks
+    # for services afterwards ("requesting any service sets ..., changing their services"); it alone clocks the device
+    # for a few frames, then it stays or leaves
+    if profile != "deepstall" and rng.random() < 0.34:
+        s0 = maxc - 1
+        ops.append({"op": "connect", "c": s0, "svc": 0, "strict": 0, "buffers": rng.choice([2, 5, 8]), "scanning": rng.choice([0, 625]), "flags": 0})
+        live[s0] = True
+        ops.append({"op": "svc", "c": s0, "reset": rng.choice([0, 1]), "svc": rng.choice([0x3, 0x7, 0x403, 0x4]), "strict": rng.choice([0, 0, 1])})
+        ticks(2, 5)
+        if rng.random() < 0.5:
+            ops.append({"op": "close", "c": s0})
+            live.pop(s0, None)
     # opening: two or three subscribers, a few frames
     connect(0, rng.choice([0x41f, 0x3, 0x7]))
     connect(1)
@@ -1244,6 +1256,9 @@ class C18Controller:
             c.resume_tick = self.rig.ticks
             self.cmd(c, "free", "ack")
             self.out.count("connects")
+            c.empty_connect = (op["svc"] == 0)
+            if op["svc"] == 0:
+                self.out.count("connects_without_services_device_closed" if self.union() == 0 else "connects_without_services")
             if c.granted & ~op["svc"]:
                 # C18 speaks about the services a client "was granted", not about how grants relate to
                 # requests: evidence only (never seen)
@@ -1270,6 +1285,9 @@ class C18Controller:
         c.granted = int(ev["granted"], 16)
         c.sub_tick = self.rig.ticks
         self.out.count("service_changes")
+        if getattr(c, "empty_connect", False) and c.granted:
+            self.out.count("services_granted_after_connect_without_services")
+            c.empty_connect = False
         if int(ev["ret"], 16) & ~op["svc"]:
             self.out.count("grants_exceeding_the_request")
         self.log("svc", slot=op["c"], proc=c.name, ok=True, granted=c.granted)
